@@ -19,8 +19,16 @@ EXPLANATION = (
     "guard is contradicted by a fact the caller established on every path (prefix checks) - is caught by a handler "
     "of the try statement around the call in got_announcements; (5) every such handler continues with the next "
     "announcement: it neither leaves the loop nor falls through to _process_announcement with stale values; (4) the introducer server's _publish applies the same "
-    "sequence-number rule to _announcements[(service, key)]. "
-    "Undecided: exceptions raised by library code (cryptography key decoding, json, UTF-8 decoding), Ed25519 itself.")
+    "sequence-number rule to _announcements[(service, key)]; (6) crypto.ed25519.verify_signature itself reaches its "
+    "normal exit only after <key parameter>.verify(<signature parameter>, <data parameter>) of the cryptography "
+    "library returned normally (parameters not re-bound, arguments in that order or by keyword), so 'returned "
+    "normally' in (1) means 'the Ed25519 check passed'. "
+    "Not demanded (liveness only, every return is still gated by (1)+(6)): the polarity of the empty / 'v0-' prefix "
+    "guards of unsign_from_foolscap and of the isinstance guards of verify_signature, the duplicate shortcut and the "
+    "subscribed-service filter of _process_announcement, saving the cache, the introducer server's fan-out. "
+    "Undecided: exceptions raised by library code (cryptography key decoding, json, UTF-8 decoding) and implicit "
+    "exceptions (KeyError / TypeError on a validly signed announcement that is not a dict with 'service-name') raised "
+    "in _process_announcement outside the per-announcement try, Ed25519 itself.")
 TECHNIQUE = ("static analysis: CFG must-precede gates, CFG x fact-set monitor for the replay rule, transitive "
              "exception-escape analysis over the resolved call graph with guard pruning and the class hierarchy")
 
@@ -490,6 +498,47 @@ def run(ctx: Context):
             r.violation(cs.fn, cs.loc, "%s calls _process_announcement without the verification step" % short(cs.fn))
         for (f, nd) in badrefs:
             r.violation(f, f.loc(nd), "%s takes _process_announcement as a value" % short(f))
+
+    # -- 6. the library check behind verify_signature ------------------------
+    # C34.1 only demands that verify_signature "returned normally"; that means something only if a normal
+    # return of verify_signature implies that the Ed25519 check of (signature, data) under the given key passed.
+    with ctx.rule("C34.6", "R1", "crypto.ed25519.verify_signature returns normally only after <key parameter>.verify("
+                  "<signature parameter>, <data parameter>) returned normally", expected=2) as r:
+        vf = idx.func(VERIFY)
+        vcfg = vf.cfg()
+        vnorm = FlowNorm(vf)
+        vparams = first_positional_params(vf)
+        if len(vparams) < 3:
+            raise AnchorVanished("verify_signature(public_key, alleged_signature, data) signature changed")
+        kp, sp, dp = vparams[:3]
+        for p in (kp, sp, dp):
+            for n in vcfg.find(stores(p)):
+                r.violation(vf, vf.loc(n.ast), "parameter %s is re-bound before the signature check" % p)
+        vgood = set()
+        seen_lib = False
+        for n in vcfg.stmt_nodes():
+            for c in calls_at(n, "verify"):
+                if not isinstance(c.func, ast.Attribute) or vnorm.norm(n, c.func.value) != kp:
+                    continue
+                seen_lib = True
+                r.site(vf, c, "library verify")
+                a_sig, a_data = arg(c, 0, "signature"), arg(c, 1, "data")
+                s_sig = vnorm.norm(n, a_sig) if a_sig is not None else ""
+                s_data = vnorm.norm(n, a_data) if a_data is not None else ""
+                ok = r.require(s_sig == sp, vf, vf.loc(c), "%s.verify is given %s as the signature, not the parameter %s"
+                               % (kp, s_sig or "nothing", sp))
+                ok &= r.require(s_data == dp, vf, vf.loc(c), "%s.verify checks the signature over %s, not over the parameter %s"
+                                % (kp, s_data or "nothing", dp))
+                if ok:
+                    vgood.add(n.id)
+        if not seen_lib:
+            r.violation(vf, vf.loc(), "verify_signature no longer calls %s.verify(%s, %s): every signature is accepted"
+                        % (kp, sp, dp))
+        r.site(vf, None, "normal exit")
+        for (t, w) in find_path_avoiding(vcfg, lambda x: x is vcfg.exit, gate_node=lambda x: x.id in vgood):
+            r.violation(vf, vf.loc(), "verify_signature returns normally on a path where %s.verify(%s, %s) did not "
+                        "complete normally (path: %s)" % (kp, sp, dp, w.brief()), w)
+        r.count(len(vcfg.nodes))
 
     # -- 2. replay rule (client) -------------------------------------------
     with ctx.rule("C34.2", "R3", "_process_announcement: _inbound_announcements[(service, key)] is replaced only by an "
